@@ -976,6 +976,8 @@ func (f *fnCtx) pkgCall(path, name string, c *ast.CallExpr) string {
 		if len(c.Args) == 1 {
 			return "(Go.newCoins1 " + arg(0) + ")"
 		}
+	case "bytes.Equal":
+		return "(decide (" + arg(0) + " = " + arg(1) + "))"
 	case "errors.Is":
 		// errors are their class (the sentinel's name; wrapping keeps the class)
 		return "(decide (" + arg(0) + " = " + arg(1) + "))"
